@@ -277,6 +277,16 @@ def c18_5(ctx, r):
     r.check(len(tests) == 1 and ctx.src(tests[0].test).replace(" ", "") == f"ret==0or{ctx.src(lp.target)}==max_tries-1", "exit test = `ret == 0 or i == max_tries - 1`", key_of(fn, "exit test"), fn.loc(lp), f"exit test is `{ctx.src(tests[0].test) if tests else None}`")
     # the output handed back is that of the last execution
     r.check(dominated_by(ctx, fn, brks[0], [n for n in cfg.nodes for c in cfg.calls_at(n) if ctx.src(c.func) == "output.update"] + [x for x in cfg.nodes if x.kind == "test" and ctx.src(x.ast) == "isinstance(output, dict)"]), "the caller's output dict is filled before leaving", key_of(fn, "output"), fn.loc(), "output is not updated before the break")
+    # contradiction rule: the dict whose stderr is examined is the dict the guard tested (the per-attempt one)
+    for s2 in ctx.sites(fn, short="run_command._should_exit_early"):
+        a0 = s2.node.args[0] if s2.node.args else None
+        var = a0.value.id if isinstance(a0, ast.Subscript) and isinstance(a0.value, ast.Name) else None
+        for n in ctx.nodes_of(fn, s2.node):
+            forms = guard_forms(ctx, fn, n)
+            in_loop_def = var is not None and any(any(l is lp for l in ctx.enclosing(fn, cfg.nodes[d].stmt, (ast.For,))) for d in ctx.rd(fn).reaching(n, var))
+            r.check(var is not None and (var, True) in forms and in_loop_def, "the permanent-error test reads the stderr of this attempt, under a test of that same dict", key_of(fn, "early-exit test guarded by another dict"), s2.loc,
+                    f"`{ctx.src(s2.node)}` examines `{var}` but is guarded by {sorted(f for f, p in forms if p and f in fn.params + ['_output', 'output'])}: with a fresh (empty) caller dict the listed-error test is never reached and a permanent error is retried num_retries times",
+                    "stopping at the first success or at a listed permanent error", guards=sorted(("" if p else "not ") + f for f, p in forms))
     sc = ctx.fn("run_command._should_exit_early", "C18.5")
     ok = any(isinstance(n, ast.If) and ctx.src(n.test).replace(" ", "") == "errinstd_err" for n in iter_own(sc.node))
     r.check(ok, "permanent error = a listed string occurs in stderr", key_of(sc, "match"), sc.loc(), "_should_exit_early no longer tests `err in std_err`")
